@@ -7,7 +7,7 @@
    empty buffer that no lane produced ([WMapEvent None]) is never written.
    The (remote, lane) link state machine over several remotes (linked ... unlinked rounds, lane-not-found,
    lane removal, unlink-all) is checked on the real WriteTaskState by correspondence + oracle (partial). *)
-From SwimV Require Import Model.Uplinks Proofs.UplinksProofs.
+From SwimV Require Import Model.Uplinks Proofs.UplinksProofs Model.ValuePipeline Proofs.ValuePipelineProofs Proofs.ValueGrammarProofs.
 Open Scope N_scope.
 
 Theorem C04_tasks_justified : forall kf ops, Forall (well_kinded kf) ops ->
@@ -39,3 +39,35 @@ Example C04_nonvacuous :
    Some {| wt_lane := 0; wt_action := WSpecial (SLinked 0) |};
    Some {| wt_lane := 0; wt_action := WEvent [2] |}; None].
 Proof. vm_compute. reflexivity. Qed.
+
+(* ---- the link protocol on one value lane end to end (Model/ValuePipeline.v) ---- *)
+
+(* for any number of remotes and every order of sets, sync requests, lane writes, links, unlinks, write
+   completions and the agent stopping: what a remote has been sent for the lane is, at any point, a prefix of
+   (linked+ (event | synced)* unlinked)* - events and synced markers never appear outside a link, an unlinked only
+   closes a link *)
+Theorem C04_value_stream_is_grammatical : forall init ops r x,
+  aget r (p_rems (pexec (pipe0 init) ops)) = Some x -> exists g, gram (r_sent x) = Some g.
+Proof. exact remote_stream_is_grammatical. Qed.
+
+(* the same on the frames delivered at the remote's write completions: what the oracle evaluates *)
+Theorem C04_delivered_frames_are_grammatical : forall init ops r,
+  gram_ok (frames_for r ops (prun (pipe0 init) ops)) = true.
+Proof. exact delivered_frames_are_grammatical. Qed.
+
+(* a remote is sent at most as many synced markers as it asked for *)
+Theorem C04_synced_only_when_asked : forall init ops r x,
+  aget r (p_rems (pexec (pipe0 init) ops)) = Some x -> (count_synced (r_sent x) <= asked r ops)%nat.
+Proof. exact synced_only_when_asked. Qed.
+
+(* when the agent stops every open link is closed: once its writes are done a remote's stream ends outside a link *)
+Theorem C04_stopped_agent_closes_every_link : forall init ops1 ops2 r x,
+  let p := pexec (pipe0 init) (ops1 ++ PStopAll :: ops2) in
+  Forall (fun o => match o with PDone _ => True | _ => False end) ops2 ->
+  aget r (p_rems p) = Some x -> v_home (r_up x) = true -> gram (r_sent x) = Some GOut.
+Proof. exact stopped_agent_closes_every_link. Qed.
+
+Theorem C04_stop_witness :
+  let p := pexec (pipe0 [48]) ([PAdd 1; PLink 1; PDone 1; PSet [53]; PWrite] ++ PStopAll :: [PDone 1; PDone 1; PDone 1]) in
+  exists x, aget 1 (p_rems p) = Some x /\ v_home (r_up x) = true /\ r_sent x = [FLinked 0; FEvent 0 [53]; FUnlinked 0 1].
+Proof. exact stop_witness. Qed.
